@@ -203,4 +203,28 @@ Lemma bt_iter_err : forall pc x st fk vs l o g, at_ pc Iiter ->
 Proof. intros. stp H. Qed.
 End Fr.
 
+(* opret in a frame that was entered by a call: popscope, continue after the call *)
+Lemma st_ret : forall id off rpc stamp save outer sc' pc st fk vs l o g, at_ pc Iret -> save <> [] ->
+  step nt code (N (Frame id off rpc stamp save outer :: sc') pc st fk vs l o g) =
+  Next (N save (S rpc) st fk vs l
+          (if (match fk with [] => true | f :: _ => f_ctr f <=? stamp end) then off else o) g).
+Proof. intros. stp H. destruct save; [congruence|reflexivity]. Qed.
+(* opret in the main frame: Next returns the value *)
+Lemma st_ret_main : forall id off rpc stamp outer pc v st fk vs l o g, at_ pc Iret ->
+  step nt code (N [Frame id off rpc stamp [] outer] pc (SV v :: st) fk vs l o g) =
+  Emit v (Run rpc true None (mk [] st fk vs l
+            (if (match fk with [] => true | f :: _ => f_ctr f <=? stamp end) then off else o)
+            {| ctr := ctr g; creg := (length code - 1, []) |})).
+Proof. intros. stp H. Qed.
+
+Lemma grow_len : forall vs o, o <= length (grow vs o).
+Proof.
+  intros vs o. unfold grow. destruct (Nat.ltb_spec (length vs) o); [|lia].
+  rewrite app_length, repeat_length. lia.
+Qed.
+Lemma grow_nth : forall vs o i, i < length vs -> nth_error (grow vs o) i = nth_error vs i.
+Proof. intros vs o i H. unfold grow. destruct (length vs <? o); [|reflexivity]. apply nth_error_app1. exact H. Qed.
+Lemma grow_len_le : forall vs o, length vs <= length (grow vs o).
+Proof. intros vs o. unfold grow. destruct (length vs <? o); [|lia]. rewrite app_length. lia. Qed.
+
 End Mach.
